@@ -101,7 +101,7 @@ def stress_tensor(frame: object, grid: int = 5, radius: float = 1) -> Tuple:
             total_area = current_cell_mesh["area"].sum()
 
             if total_area == 0:
-                sigmas[f"{row}{column}"] = np.array([[0, 0], [0, 0]], dtype=float)
+                sigmas[(row, column)] = np.array([[0, 0], [0, 0]], dtype=float)
                 continue
 
             pressure_area_term = - np.sum([cell["pressure"] * cell["area"] for _, cell in current_cell_mesh.iterrows()])
@@ -122,6 +122,6 @@ def stress_tensor(frame: object, grid: int = 5, radius: float = 1) -> Tuple:
             sigma_yy = (pressure_area_term + tension_yy) / total_area
             sigma_xy = tension_xy / total_area
 
-            sigmas[f"{row}{column}"] = np.array([[sigma_xx, sigma_xy], [sigma_xy, sigma_yy]], dtype=float)
+            sigmas[(row, column)] = np.array([[sigma_xx, sigma_xy], [sigma_xy, sigma_yy]], dtype=float)
 
     return sigmas, bins_centers, (x_bins, y_bins)
